@@ -13,13 +13,14 @@
 EXTENDS DesignPowerRule
 
 CONSTANTS Configs,     \* set of [mode, slope (milli), ref, lo, hi, step, prefTot]
-          Profiles,    \* set of OMS profiles [ing, t0, tx, dpref, amps : Seq([L, Ln, nxt, inVoa, uGain, uDp, uVoa, uVar,
+          Profiles,    \* set of OMS profiles [ing, t0, tx, dpref, dload, amps : Seq([L, Ln, nxt, inVoa, uGain, uDp, uVoa, uVar,
                        \*                                                     pmax, pmaxSet, flatx, autoVoa])]
           VoaGrid      \* candidate automatic VOA values
 
 (* The OMS starts at a ROADM (ing = 0), whose egress target puts the reference channel at pref + t0, or directly at a   *)
 (* transceiver (ing = 1) that transmits tx dBm: t0 is then tx - pref.  dpref shifts the reference power of the profile  *)
-(* (and with it the total design power) away from the configuration's.  An amplifier whose model is auto-selected may   *)
+(* (and with it the total design power) away from the configuration's; dload shifts the total alone (a design band    *)
+(* with its own channel spacing carries another number of channels at the same reference power).  An amplifier whose model is auto-selected may   *)
 (* end up with any of the library's eligible models: pmaxSet holds their p_max (which one is C10's business), the step  *)
 (* picks one and the clauses are stated for the model in place.                                                        *)
 
@@ -33,7 +34,7 @@ VARIABLES cfg,      \* the design configuration (fixed along a behaviour)
 vars == <<cfg, oms, i, prevNet, pLine, out>>
 
 T0 == IF oms.ing = 1 THEN oms.tx - oms.dpref ELSE oms.t0          \* offset of the channel leaving the ingress
-C  == [cfg EXCEPT !.prefTot = cfg.prefTot + oms.dpref]            \* the configuration at this profile's reference power
+C  == [cfg EXCEPT !.prefTot = cfg.prefTot + oms.dpref + oms.dload]   \* the configuration at this profile's design load
 
 Init == /\ cfg \in Configs
         /\ oms \in Profiles
